@@ -3279,7 +3279,14 @@ async def cx_dual_bounded(w):
             decs.append(f"@time_active({spec}{ho})")
         elif rng.random() < 0.2:
             decs.append(f"@time_active(hold_off={rng.choice([1.4, 2.9])})")
+        body = "    record(kw)\n"
+        if rng.random() < 0.35:
+            # overlapping runs: the function sleeps; optionally only one run per name may be alive (C13 / C14)
+            if rng.random() < 0.6:
+                decs.append(f"@task_unique('dual_u'{rng.choice(['', ', kill_me=True', ', kill_me=False'])})")
+            body = f"    record(kw)\n    task.sleep({rng.choice([1.1, 2.3])})\n    record({{'trigger_type': 'finished'}})\n"
         rng.shuffle(decs)
+        decs.append(body)
         hist = []
         t = 0.0
         for _ in range(rng.randrange(2, 7)):
@@ -3330,7 +3337,7 @@ async def cx_dual_bounded(w):
         gctx = GlobalContext(name, global_sym_table={"__name__": name, "record": record}, manager=GlobalContextMgr)
         GlobalContextMgr.set(name, gctx)
         gctx.set_auto_start(True)
-        src = "\n".join(decs) + "\ndef f(**kw):\n    record(kw)\n"
+        src = "\n".join(decs[:-1]) + "\ndef f(**kw):\n" + decs[-1]
         _, _, exc = await run_source(name, src, global_ctx=gctx)
         await settle(40)
 
@@ -3351,13 +3358,24 @@ async def cx_dual_bounded(w):
                 nvv, ovv = sv(ent, new), sv(ent, old)
                 await State.update({ent: nvv, f"{ent}.old": ovv}, {"trigger_type": "state", "var_name": ent, "value": nvv, "old_value": ovv, "context": None})
             await settle(40)
-        await asyncio.sleep(max(0.0, (hist[-1][0] if hist else 0) + 8.0 - (vt[0] - t0)))
+        horizon = (hist[-1][0] if hist else 0) + 8.0
+        await asyncio.sleep(max(0.0, horizon - (vt[0] - t0)))
         await settle(40)
+        # what happened up to the horizon (a run that is still sleeping then finishes later, at a moment that depends on how
+        # the subsystem is torn down; the log is frozen here)
+        seen = [r for r in list(runs) if r[0] <= horizon - 0.02]
         gctx.stop()
         GlobalContextMgr.delete(name)
-        await settle(20)
+        await settle(40)
+        # nothing left behind once the function's context is gone (C09): subscriptions, bus listeners, unique-task names
+        from custom_components.pyscript.event import Event
+        from custom_components.pyscript.function import Function as _F
+        left = {"state_subscriptions": sum(len(v) for v in State.notify.values()), "event_subscriptions": sum(len(v) for v in Event.notify.values()),
+                "bus_listeners": len(hass.bus.listeners.get("dual_ev", []))}
+        if any(left.values()):
+            seen.append(("left-behind", left))
         await shutdown()
-        return runs, repr(exc) if exc else None
+        return seen, repr(exc) if exc else None
     import threading, os as _os, time as _time
     progress = [0, _time.time()]
 
@@ -3383,9 +3401,11 @@ async def cx_dual_bounded(w):
             nontrivial.add((tuple(decs), len(new_runs) if isinstance(new_runs, list) else -1))
         if len(samples) < 2:
             samples.append({"decorators": decs, "history": [list(map(str, h)) for h in hist], "runs": [list(r) for r in new_runs][:4] if isinstance(new_runs, list) else new_runs})
-        if new_runs != old_runs or bool(new_exc) != bool(old_exc):
+        leaks = [r for r in (new_runs if isinstance(new_runs, list) else []) + (old_runs if isinstance(old_runs, list) else []) if r[0] == "left-behind"]
+        if new_runs != old_runs or bool(new_exc) != bool(old_exc) or leaks:
             if len(failures) < int(w.get("max_failures", 3)):
-                failures.append({"signature": f"dual:{decs}:{hist}", "decorators": decs, "history": [list(map(str, h)) for h in hist],
+                first = next(((repr(x), repr(y)) for x, y in zip(new_runs, old_runs) if x != y), None) if isinstance(new_runs, list) and isinstance(old_runs, list) else None
+                failures.append({"signature": f"dual:{decs}:{hist}", "decorators": decs, "history": [list(map(str, h)) for h in hist], "first_difference": first,
                                  "new_subsystem_runs": new_runs, "legacy_subsystem_runs": old_runs, "new_error": new_exc, "legacy_error": old_exc})
     return {"unit": "both decorator subsystems end to end", "method": "random decorator stacks x timed histories; legacy vs new subsystem on a virtual clock",
             "bound": f"{n} random programs (<= 5 decorators, <= 6 history steps), seeded", "cases": cases, "distinct_nontrivial": len(nontrivial), "samples": samples,
